@@ -136,3 +136,126 @@ def rule_R1_refimpl(ctx, F):
         ctx.ob(d is None, "round:reference_impl", fn.loc, "round(state, m): 16 output terms equal the spec G network" if d is None else "state word %s is %s ; spec %s" % d)
     except SymFail as e:
         ctx.ob(False, "round:reference_impl", fn.loc, "not evaluable: %s" % e)
+
+
+# ------------------------------------------------------------------ C copies (R1c) ----
+import r_c as _rc           # noqa: E402
+from csym import CSym       # noqa: E402
+
+C_ROUND_FILES = [
+    # (file, -m flags, round function, filters)
+    ("c/blake3_sse2.c", ("-msse2",), ["round_fn"], ["round_fn", "rot", "addv", "xorv"]),
+    ("c/blake3_sse41.c", ("-msse4.1",), ["round_fn"], ["round_fn", "rot", "addv", "xorv"]),
+    ("c/blake3_avx2.c", ("-mavx2",), ["round_fn"], ["round_fn", "rot", "addv", "xorv"]),
+    ("c/blake3_avx512.c", ("-mavx512f", "-mavx512vl"), ["round_fn4", "round_fn8", "round_fn16"], ["round_fn", "rot", "add_", "xor_"]),
+]
+
+
+def c_round_check(ctx, cs_factory, fname, label, where):
+    sched = spec.msg_schedule()
+    for r in range(7):
+        T = Terms()
+        cs = cs_factory(T)
+        f = cs.funcs.get(fname)
+        if f is None:
+            raise MissingAnchor("C function %s (%s)" % (fname, label))
+        V = tuple(T.sym("v%d" % i) for i in range(16))
+        M = tuple(T.sym("m%d" % i) for i in range(16))
+        vc, mc = Cell(V), Cell(M)
+        try:
+            cs.run(f, [Ptr(vc), Ptr(mc), T.const(r)])
+            want = spec_round(T, V, [M[sched[r][k]] for k in range(16)])
+            d = first_diff(T, vc.v, want)
+            ctx.ob(d is None, "round:%s:r%d" % (label, r), where, "round %d: 16 output terms equal the spec G network" % r if d is None else "round %d: state word %s is %s ; spec %s" % ((r,) + d))
+        except SymFail as e:
+            ctx.ob(False, "round:%s:r%d" % (label, r), where, "not evaluable as straight-line code: %s" % e)
+
+
+def rule_R1_c(ctx):
+    # portable: whole file
+    tp = _rc.tu("c/blake3_portable.c")
+    hdr_globals = tp.globals
+    c_round_check(ctx, lambda T: CSym([tp], T), "round_fn", "blake3_portable.c", "c/blake3_portable.c")
+    # compress_pre of the portable C file against the spec state layout
+    T = Terms()
+    CV = tuple(T.sym("cv%d" % i) for i in range(8))
+    M = tuple(T.sym("m%d" % i) for i in range(16))
+    lo, hi, bl, fl, ctr = T.sym("counter_low"), T.sym("counter_high"), T.sym("block_len"), T.sym("flags"), T.sym("counter")
+    blk = Cell(tuple(T.sym("b%d" % i) for i in range(64)))
+
+    def load32(cs, a):
+        p = a[0]
+        off = p.path[-1] if isinstance(p, Ptr) and p.path else 0
+        if not isinstance(p, Ptr) or p.cell is not blk or off % 4:
+            raise SymFail("load32 of an unexpected address")
+        return M[off // 4]
+    ov = {"load32": load32, "counter_low": lambda cs, a: lo if a[0] == ctr else T.sym("?"), "counter_high": lambda cs, a: hi if a[0] == ctr else T.sym("?")}
+    cs = CSym([tp], T, overrides=ov)
+    st = Cell(tuple(T.sym("st_uninit%d" % i) for i in range(16)))
+    f = cs.funcs.get("compress_pre")
+    if f is None:
+        raise MissingAnchor("compress_pre in c/blake3_portable.c")
+    try:
+        cs.run(f, [Ptr(st), Ptr(Cell(CV)), Ptr(blk), bl, ctr, fl])
+        want = spec_compress_pre(T, CV, M, lo, hi, bl, fl)
+        d = first_diff(T, st.v, want)
+        ctx.ob(d is None, "compress_pre:blake3_portable.c", "c/blake3_portable.c", "7 rounds from the spec state layout equal the spec" if d is None else "state word %s is %s ; spec %s" % d)
+    except SymFail as e:
+        ctx.ob(False, "compress_pre:blake3_portable.c", "c/blake3_portable.c", "not evaluable: %s" % e)
+    # counter helpers of blake3_impl.h
+    ti = _rc.tu("c/blake3.c")
+    cl, ch = ti.funcs.get("counter_low"), ti.funcs.get("counter_high")
+    okl = cl is not None and [s for s in cl["body"] if s[0] == "return"] and _rc.nc(cl["body"][0][1]) == ("cast", ("var", "counter", "param"), "uint32_t")
+    okh = ch is not None and [s for s in ch["body"] if s[0] == "return"] and _rc.nc(ch["body"][0][1]) == ("cast", ("bin", ">>", ("var", "counter", "param"), ("int", 32)), "uint32_t")
+    ctx.ob(bool(okl), "c-counter_low", "c/blake3_impl.h", "counter_low = (uint32_t)counter: %s" % bool(okl))
+    ctx.ob(bool(okh), "c-counter_high", "c/blake3_impl.h", "counter_high = (uint32_t)(counter >> 32): %s" % bool(okh))
+    # feed-forward of the portable C kernels
+    for name, xof in (("blake3_compress_in_place_portable", False), ("blake3_compress_xof_portable", True)):
+        T = Terms()
+        ST = tuple(T.sym("st%d" % i) for i in range(16))
+        CV = tuple(T.sym("cv%d" % i) for i in range(8))
+        cvc = Cell(CV)
+        stored = {}
+
+        def cpre(cs, a, ST=ST):
+            a[0].cell.v = set_path(a[0].cell.v, a[0].path, ST) if a[0].path else ST
+            return None
+
+        def store32(cs, a, stored=stored):
+            p = a[0]
+            stored[p.path[-1] if p.path else 0] = a[1]
+            return None
+        cs = CSym([tp], T, overrides={"compress_pre": cpre, "store32": store32})
+        f = cs.funcs.get(name)
+        if f is None:
+            raise MissingAnchor("%s in c/blake3_portable.c" % name)
+        try:
+            out = Cell(tuple(T.sym("o%d" % i) for i in range(64)))
+            args = [Ptr(cvc), Ptr(Cell(T.sym("blk"))), T.sym("bl"), T.sym("ctr"), T.sym("fl")] + ([Ptr(out)] if xof else [])
+            cs.run(f, args)
+            if xof:
+                got = tuple(stored.get(4 * i) for i in range(16))
+                want = tuple(T.xor(ST[i], ST[i + 8]) for i in range(8)) + tuple(T.xor(ST[i + 8], CV[i]) for i in range(8))
+            else:
+                got = cvc.v
+                want = tuple(T.xor(ST[i], ST[i + 8]) for i in range(8))
+            d = first_diff(T, got, want) if all(g is not None for g in got) else (-1, "missing store", "")
+            ctx.ob(d is None, "c-feed-forward:%s" % name, "c/blake3_portable.c", "output words = st[i]^st[i+8]%s" % (", st[i+8]^cv[i]" if xof else "") if d is None else "word %s is %s ; spec %s" % d)
+        except SymFail as e:
+            ctx.ob(False, "c-feed-forward:%s" % name, "c/blake3_portable.c", "not evaluable: %s" % e)
+    # SIMD C files: filtered AST dumps (immintrin.h makes the full AST ~150 MB)
+    n = 0
+    for path, mflags, fns, filters in C_ROUND_FILES:
+        tus = [_rc.tu(path, (), extra_args=mflags, filt=flt) for flt in filters]
+        sched_glob = {g["name"]: g for g in hdr_globals}
+        for fn in fns:
+            n += 1
+
+            def factory(T, tus=tus):
+                cs = CSym(tus, T)
+                ms = sched_glob.get("MSG_SCHEDULE")
+                if ms is not None and "MSG_SCHEDULE" not in cs.glob:
+                    cs.glob["MSG_SCHEDULE"] = cs.const_init(ms["init"])
+                return cs
+            c_round_check(ctx, factory, fn, "%s:%s" % (os.path.basename(path), fn), path)
+    ctx.floor("C SIMD round functions", n, 6)
